@@ -78,8 +78,8 @@ theorem cmp_same {c c' : Ctx} (h : SameData c c') (p : Bytes) (o : Op) (r : Byte
     (c.cmp p o r).1 = (c'.cmp p o r).1 ∧ SameData (c.cmp p o r).2 (c'.cmp p o r).2 ∧ (c.cmp p o r).2.err = (c'.cmp p o r).2.err := by
   obtain ⟨hv, hq⟩ := h
   unfold Ctx.cmp
-  rw [hv]
-  exact ⟨rfl, ⟨rfl, hq⟩, rfl⟩
+  rw [hv, hq]
+  exact ⟨rfl, ⟨rfl, rfl⟩, rfl⟩
 
 theorem cmpLC_same {c c' : Ctx} (h : SameData c c') (p : Bytes) (o : Op) (r : Bytes) :
     (c.cmpLC p o r).1 = (c'.cmpLC p o r).1 := by
